@@ -91,6 +91,7 @@ package parse
 //@ func (*Parser).parseSpecs
 //@   errprop-nil Group).Wait mergo.Merge parse.parseString
 //@   structure no-channel-ops
+//@   assert @call:github.com/imdario/mergo.Merge [a-compiled-model-is-merged-only-if-it-decoded-without-error] v.err == nil
 //@   assert @store:F.parse.sourceCtxHelper.filename [recorded-file-is-the-file-being-parsed] stored == replaceAll(src.filename, "\\", "/")
 
 // ---- C01 / C07: parser panics become a ParseError; per-parse lexer state is always released
